@@ -347,6 +347,51 @@ def check_margin(repo, rep):
     rep.floor(rid5, 6)
 
 
+def check_margin_multi(repo, rep):
+    rid5 = "C03-R5"
+    rep.rule("C03-R5m", "available_margin with several symbols sharing one wallet: the open-position cost and the resting-order "
+                        "reservation of EVERY traded asset are subtracted (two assets, orders resting on each, symbolic)")
+    dna_mod, dna_cls = repo.module(DNA), repo.cls(DNA, "DynamicNumpyArray")
+    smp = {"q1": F(1), "p1": F(8), "q2": F(4), "p2": F(15), "q3": F(2), "p3": F(30), "q4": F(1), "p4": F(31), "Wt": F(1000), "P": F(2), "E": F(9),
+           "cp": F(11), "P2": F(3), "E2": F(28), "cp2": F(27), "lev": F(2), "f": F(1, 100)}
+    nonneg = set(smp)
+    for order in (("BTC", "ETH"), ("ETH", "BTC")):
+        def mk(dec):
+            it = Interp(repo, stubs=W.base_stubs(), samples=[dict(smp)], nonneg=set(nonneg), decisions=dec)
+
+            def table(rows):
+                t = it.instantiate(ClassV(dna_cls, dna_mod), [(num(10), num(2))], {})
+                for r in rows:
+                    it.call(it.getattr(t, "append"), [Arr(list(r))], {})
+                return t
+            assets = {}
+            for a in order:
+                assets[a] = num(0)
+            assets["USDT"] = A("Wt")
+            ex = W.obj_of(repo, FUT, "FuturesExchange", "exchange", {
+                "name": "Sandbox", "type": "futures", "fee_rate": A("f"), "settlement_currency": "USDT", "assets": assets,
+                "buy_orders": {"BTC": table([(A("q1"), A("p1"))]), "ETH": table([(A("q3"), A("p3"))])},
+                "sell_orders": {"BTC": table([(-A("q2"), A("p2"))]), "ETH": table([(-A("q4"), A("p4"))])},
+                "futures_leverage": A("lev"), "futures_leverage_mode": "cross"})
+            strat = Obj("Strategy", name="strategy", attrs={"leverage": A("lev")}, open_world=True)
+            pos = {
+                "BTC-USDT": W.obj_of(repo, POSITION, "Position", "pos_btc", {"qty": A("P"), "previous_qty": num(0), "entry_price": A("E"), "current_price": A("cp"),
+                                                                            "exchange": ex, "exchange_name": "Sandbox", "symbol": "BTC-USDT", "strategy": strat}),
+                "ETH-USDT": W.obj_of(repo, POSITION, "Position", "pos_eth", {"qty": -A("P2"), "previous_qty": num(0), "entry_price": A("E2"), "current_price": A("cp2"),
+                                                                            "exchange": ex, "exchange_name": "Sandbox", "symbol": "ETH-USDT", "strategy": strat}),
+            }
+            it.stubs[f"{W.SELECTORS}:get_position"] = lambda i, a, k: pos.get(a[1])
+            return it, lambda it: it.getattr(ex, "available_margin")
+        for out in explore(mk, 32):
+            lev = A("lev")
+            want = A("Wt") - (A("E") * A("P") / lev - A("P") * (A("cp") - A("E"))) - (A("E2") * A("P2") / lev - (-A("P2")) * (A("cp2") - A("E2"))) \
+                - (A("q2") * A("p2")) / lev - (A("q3") * A("p3")) / lev
+            if out.kind != "return" or not (isinstance(out.value, R) and out.value.same(want)):
+                rep.violation("C03-R5m", "available_margin|two-assets", f"available_margin with two traded assets (iteration order {order}) = {out.value!r}, reference {want!r}")
+            rep.instance("C03-R5m", f"two-assets|{order}", {"value": repr(out.value)})
+    rep.floor("C03-R5m", 2)
+
+
 def check_fee(repo, rep):
     rid = "C03-R2"
     rep.rule(rid, "charge_fee debits |amount|*fee_rate and add_realized_pnl credits the PnL to the wallet (symbolic)")
@@ -385,7 +430,8 @@ def run(repo: Repo, rep, tier: str):
     rep.guarded(check_qty_update, repo, rep)
     rep.guarded(check_fee, repo, rep)
     rep.guarded(check_margin, repo, rep)
-    rep.undecided_item("interaction of several symbols beyond the available-margin formula (one traded asset in the abstract world)")
+    rep.guarded(check_margin_multi, repo, rep)
+    rep.undecided_item("interaction of more than two symbols (the available-margin formula is decided for one and two traded assets)")
     rep.undecided_item("float drift in row matching of the reservation tables")
 
 
